@@ -1,6 +1,7 @@
 package main
 
 import (
+	"os"
 	"encoding/json"
 	"fmt"
 	"net/http"
@@ -424,12 +425,21 @@ func init() {
 			cfg := baseConfig(c.Strategy, nil)
 			// a permanent member keeps traffic servable whatever the admins do
 			cfg.Backends = []config.BackendConfig{{Name: "base", Address: c11AddrOf(p, "base", 1), Weight: 1}}
+			if c12Wedged {
+				o.Inconcl("case %s skipped: an earlier case left deadlocked goroutines in this process", vh.J(c))
+				return
+			}
 			sys, err := startSys(cfg, nil, true)
 			if err != nil {
 				o.Inconcl("startSys: %v", err)
 				return
 			}
-			defer sys.Close()
+			wedged := false
+			defer func() {
+				if !wedged {
+					sys.Close()
+				}
+			}()
 			adm := sys.admin()
 			var mu sync.Mutex
 			var hist []porcupine.Operation
@@ -547,7 +557,22 @@ func init() {
 				}()
 			}
 			// admins finish on their own; traffic is stopped once they are done
-			wgAdm.Wait()
+			admDone := make(chan struct{})
+			go func() { wgAdm.Wait(); close(admDone) }()
+			select {
+			case <-admDone:
+			case <-time.After(60 * time.Second):
+				// 14 admin operations per actor take milliseconds: look for goroutines parked on a lock for good
+				stuck, all := c12Stalled()
+				c12Wedged, wedged = true, true
+				if stuck != "" {
+					os.WriteFile(fmt.Sprintf("%s/c11-stall-%d.txt", e.TmpDir, c.Idx), []byte(all), 0o644)
+					o.Viol("C11|conc|deadlock|"+c12StallFrame(stuck), fmt.Sprintf("%s admins=%d: the admin actors had not finished after 60 s and goroutines inside Helios stay parked on a lock with an unchanged stack over 8 s", c.Strategy, c.Admins), map[string]any{"stuck_goroutines": trunc(stuck, 6000)})
+				} else {
+					o.Inconcl("the admin actors had not finished after 60 s but no goroutine inside Helios is parked on a lock (case %s)", vh.J(c))
+				}
+				return
+			}
 			close(stop)
 			wg.Wait()
 			// final consistency: a last listing, recorded like any other
